@@ -8,12 +8,62 @@ RULE = ('random policy configurations (default / user / group / at_console / man
         'with a fixed mandatory tail that keeps the driver reachable; three credentials (root, uid 1000, nobody); traffic: RequestName, unicast and '
         'broadcast messages of all four types with fields present or absent, replies requested and not, match rules incl. eavesdropping; the '
         'model applies PolicyOps.tla (last matching rule wins, default deny) to every send, every receive and every own; '
-        'distinct = distinct (configuration, history) texts')
+        'every fourth scenario is a focused one: a rule naming a bus name (as sender, destination or prefix) while two connections hold that '
+        'name, one of them queued, and the primary releases half-way; distinct = distinct (configuration, history) texts')
 W = {'req': 2, 'rel': 0.5, 'query': 0.3, 'addmatch': 0.8, 'rmmatch': 0.2, 'signal': 6, 'call': 5, 'reply': 3.5,
      'usignal': 2, 'close': 0.3, 'driver_other': 0.2, 'nodest': 0.1}
 
 
+def queued_owners(rng):
+    """rules that name a bus name apply to every connection in that name's queue, not only to the primary owner: two
+    connections hold the name (one queued), a third party talks to both, then the primary releases"""
+    R = policygen.rule
+    N = rng.choice(['com.example.A', 'com.example.B'])
+    base = [R('send', True), R('recv', True), R('own', True)]
+    special = rng.choice([
+        [R('recv', False, peer=N)],
+        [R('send', False, peer=N)],
+        [R('send', False, peer='com.example', prefix=True)],
+        [R('recv', False, ty='signal'), R('recv', True, peer=N)],
+        [R('send', False, ty='method_call'), R('send', True, peer=N)],
+        [R('recv', False, peer=N, ty='method_call')],
+        [R('send', False, peer=N, ifc='com.example.I')],
+    ])
+    ctxs = [['default', 0, base + special],
+            ['mandatory', 0, [R('send', True, peer='org.freedesktop.DBus'), R('recv', True, peer='org.freedesktop.DBus')]]]
+    cfg = {'policy_ctxs': ctxs, 'groups_of': policygen.GROUPS_OF}
+    rounds = [{'ops': {str(s): [{'k': 'connect', 'uid': 0}, {'k': 'hello'}] +
+                       ([{'k': 'addmatch', 'rule': "type='signal'"}] if s in (3, 4) else [])}} for s in (1, 2, 3, 4)]
+    rounds.append({'ops': {'1': [{'k': 'req', 'n': N, 'f': rng.choice([0, 1])}]}})
+    rounds.append({'ops': {'2': [{'k': 'req', 'n': N, 'f': 0}]}})          # queued behind 1
+    ser = [3000]
+
+    def talk(s):
+        ops = []
+        for _ in range(rng.choice([2, 3, 4])):
+            ser[0] += 1
+            r = rng.random()
+            if r < 0.35:
+                ops.append({'k': 'send', 'ty': 4, 'path': '/a', 'ifc': rng.choice(['com.example.I', 'com.example.J']), 'mem': 'Ma',
+                            'sig': 'u', 'body': [ser[0]], 'ser': ser[0]})
+            else:
+                others = [x for x in (1, 2, 3, 4) if x != s]
+                dst = rng.choice([{'slot': rng.choice(others)}, {'slot': rng.choice(others)}, N])
+                ops.append({'k': 'send', 'ty': rng.choice([1, 1, 4]), 'dst': dst, 'path': '/a',
+                            'ifc': rng.choice(['com.example.I', 'com.example.J']), 'mem': 'Mb', 'sig': 'u', 'body': [ser[0]],
+                            'ser': ser[0], 'fl': rng.choice([0, 1])})
+        return ops
+    for phase in range(2):
+        for s in rng.sample([1, 2, 3, 4], 4):
+            rounds.append({'ops': {str(s): talk(s)}})
+        if phase == 0:
+            rounds.append({'ops': {'1': [{'k': 'rel', 'n': N}]}})            # 2 becomes primary, 1 holds nothing
+    return {'cfg': cfg, 'rounds': rounds}
+
+
 def gen(rng, i):
+    if i % 4 == 3:
+        return queued_owners(rng)
     cfg = {'policy_ctxs': policygen.random_ctxs(rng), 'groups_of': policygen.GROUPS_OF}
     g = gen_bus.Gen(rng, nslots=4, nnames=3, uids=(0, 1000, 65534), w=W, cfg=cfg, odd_rules=0.0, eavesdrop=0.2)
     scn = g.scenario(nrounds=rng.choice([10, 14]), concurrency=0.25, burst=0.35)
